@@ -131,4 +131,7 @@ AtMostM   == (stage = 3 /\ prm.max >= 0) => CharStarts(Encode) <= prm.max
 \* the emitted bytes always form whole characters
 Utf8Whole == stage = 3 => LET e == Encode IN (e = <<>> \/ e[1] = "L") /\ Len(e) = Len(Bytes(CharsOf(e, 1)))
 \* the chunking of the producer and the acceptance pattern of the sink do not matter: Law mentions neither
+\* (Nesting: a group's text is what its body produced - for a body that is one spec'd item, Expected of that item - and
+\* the group's own spec applies the same law to that text.  The replay wraps a quarter of its exact cases into a group
+\* with a second spec and expects the law applied twice, including a group minimum larger than the inner maximum.)
 =============================================================================
